@@ -1,1 +1,8 @@
+pub mod ast;
+pub mod domain;
+pub mod gen;
+pub mod interp;
 pub mod num;
+pub mod prims;
+pub mod shrink;
+pub mod vals;
